@@ -119,6 +119,22 @@ TEMPLATES = [
     "A(i,j,k) = b(i) * c(j) * d(k)",
 ]
 
+# requests that must be refused with a typed, Result-carried error (CLI: exit 1 + message)
+REFUSALS = [
+    ("a(i) = a(i) + b(i)", [("a", "d"), ("b", "s")]),          # MutatingAssignmentError
+    ("a(i) = b(i,j) + b(j)", [("a", "d"), ("b", "ds")]),       # InconsistentDimensionsError
+    ("a(i) = i(i)", [("a", "d"), ("i", "s")]),                 # NameConflictError
+    ("a(i) = b(i)", [("a", "dd"), ("b", "s")]),                # IncorrectDimensionsError
+    ("a(i) = b(i)", [("a", "d"), ("b", "s"), ("z", "d")]),     # UnusedFormatError
+    ("a(i) = b(i)", [("a", "d"), ("b", "d1d1")]),              # InvalidModeOrderingError
+    ("a(i) = b(i)", [("a", "d"), ("b", "x")]),                 # ParseError (format)
+    ("a(i) = b(i)", [("a", "d"), ("a", "s")]),                 # format mentioned twice (CLI only)
+    ("a(i) = ", [("a", "d")]),                                 # ParseError (assignment)
+    ("a(i) = b(i) +* c(i)", [("a", "d")]),                     # ParseError
+    ("a_b(i) = c(i)", [("c", "d")]),                           # ParseError: '_' is not a name character
+    ("a(i) == b(i)", []),                                      # ParseError
+]
+
 # templates for the identifier-spelling sweep: {T}/{U}/{V} tensors, {I}/{J} indexes
 IDENT_TEMPLATES = [
     ("{T}({I}) = {U}({I})", {"T": "s", "U": "s"}),
@@ -206,6 +222,11 @@ def build_cases(chk) -> list[dict]:
             continue
         add(spec["assignment"], spec["formats"], origin="corpus:" + f.name,
             own_gcc=bool(spec.get("own_gcc")), graph="all")
+
+    # 0b. typed refusals of ill-formed requests
+    for a_, fm in REFUSALS:
+        add(a_, fm, origin="refusal", graph="none", tm=False,
+            kinds_sets=[["compute"]], cli_kinds=["compute"], cli_lang="c")
 
     # 1. format sweep
     cap, sample = (32, 16) if quick else (2400, 500)
@@ -343,7 +364,6 @@ Definition row (id : N) (a : dassign) (fs : formats) (kss : list (list kind)) (c
   ++ map (fun ks => ocode (generate_r a fs rf ks)) kss
   ++ map (fun ks => ocode (generate_r a fs rs ks)) kss
   ++ flat_map (grow modes) (firstn cap gs).
-Open Scope N_scope.
 """
 
 OCODE = {"Code": 0, "Diagonal": 1, "NoKernel": 2, "BroadcastTarget": 3, K1_SITE: 4, WRITE_SITE: 5}
@@ -418,7 +438,9 @@ def run_model(chk, cases: list[dict], results: dict[int, dict]) -> dict[int, "Ro
 
     def run_shard(arg):
         n, shard = arg
-        body = PREAMBLE + "Eval vm_compute in [\n" + ";\n".join(case_term(c, results[c["id"]]) for c in shard) + "\n].\n"
+        body = (PREAMBLE + "Definition rows : list (list N) := [\n"
+                + ";\n".join(case_term(c, results[c["id"]]) for c in shard)
+                + "\n].\nOpen Scope N_scope.\nEval vm_compute in rows.\n")
         name = f"c08_p{os.getpid()}_shard{n}"
         ok, out = chk.coq_eval(name, body, timeout=900)
         if ok:
@@ -467,6 +489,8 @@ def property_failures(case: dict, r: dict) -> list[dict]:
     prob = r.get("problem", "")
     if prob != "ok" and not prob.startswith("Problem:"):
         bad("make_problem", prob)
+    if prob.startswith("Problem:") and r.get("cli") and r["cli"].get("exit_code") == 0:
+        bad("cli", f"exit 0 although the request is refused by the library ({prob})")
     for key, g in (r.get("gen") or {}).items():
         o = g["outcome"]
         if o in ("Diagonal", "NoKernel"):
